@@ -119,5 +119,10 @@ def run(tier, seed):
     build.ir_many([dict(config=c, flavour="O0") for c in cfgs])
     tasks = []
     for cfg in cfgs: tasks += harnesses(rep, cfg, build.ir(cfg, "O0"))
+    # ladder skeleton (bit order and count, swaps, clamping) and the x25519-dalek entry points: layer M (checks/c07g.py)
+    from checks import c07g
+    tasks += c07g.harnesses(rep, "serial64", build.ir("serial64", "O0"), tier)
+    xp = build.ir("serial64", "O0", crate="x25519-dalek", features=["static_secrets", "reusable_secrets"], with_deps=True)
+    tasks += c07g.x_harnesses(rep, xp, tier)
     run_tasks(tasks, rep)
     return rep
